@@ -1028,7 +1028,8 @@ impl DNSPkt {
         }
     }
     pub fn serialise(&self) -> Vec<u8> {
-        self.serialise_with_size(65536)
+        /* The largest message either transport can carry (16 bit TCP length prefix) */
+        self.serialise_with_size(65535)
     }
     pub fn serialise_with_size(&self, size: usize) -> Vec<u8> {
         assert!(size >= 512);
